@@ -275,7 +275,7 @@ def write_cfg(spec, sdir, fs):
 
 def parse_tlc(text):
     res = dict(distinct_states=None, states_generated=None, depth=None, violated=None)
-    m = re.findall(r"([\d,]+) states generated, ([\d,]+) distinct states found", text)
+    m = re.findall(r"([\d,]+) states generated(?: \([^)]*\))?, ([\d,]+) distinct states found", text)
     if m:
         res["states_generated"] = int(m[-1][0].replace(",", ""))
         res["distinct_states"] = int(m[-1][1].replace(",", ""))
